@@ -12,7 +12,7 @@ from .common import *
 from .quantity_ops import qty_arg
 
 K = "quantity:"
-N_MAX = 3
+N_MAX = 1
 HALF_MODES = ("ROUND_HALF_UP", "ROUND_HALF_DOWN", "ROUND_HALF_EVEN")
 
 
